@@ -285,9 +285,9 @@ func runLexCheck(prop, tier string) int {
 	r.Set("generator_runs", sw.pool.Jobs.Load())
 	r.Set("input_length_bound", n)
 	if prop == "C01" {
-		r.Set("rule", "layer A: per grammar of families L1-L6, BFS to closure of the product (emitted DFA state, reference position-automaton state), one transition per cell of the common refinement of all class boundaries (covers every Unicode scalar value, strings of every length); layer B: compiled unmodified lexers driven with every byte string up to the bound over a per-grammar alphabet (class representatives, newline, tab, multi-byte, ill-formed bytes) and one witness per product state, against the reference tokenizer; distinct = grammars whose product closed")
+		r.Set("rule", "layer A: per grammar of families L1-L8 (L7: wide patterns, L8: the lexical parts of the grammars shipped with the repository, read by an independent reader), BFS to closure of the product (emitted DFA state, reference position-automaton state), one transition per cell of the common refinement of all class boundaries (covers every Unicode scalar value, strings of every length); layer B: compiled unmodified lexers driven with every byte string up to the bound over a per-grammar alphabet (class representatives, newline, tab, multi-byte, ill-formed bytes) and one witness per product state, against the reference tokenizer; distinct = grammars whose product closed")
 	} else {
-		r.Set("rule", "compiled unmodified lexers (selection of families L1-L6, distinct emitted tables), every byte string up to the bound over a per-grammar alphabet that always contains newline, tab, a multi-byte rune and an ill-formed byte: offset/line/column/literal of every token incl. INVALID, EOF and two post-EOF calls against the reference tokenizer; distinct = (lexer, token-kind/position vector) classes with at least one real token and an INVALID or skipped lexeme")
+		r.Set("rule", "compiled unmodified lexers (selection of families L1-L8, distinct emitted tables), every byte string up to the bound over a per-grammar alphabet that always contains newline, tab, a multi-byte rune and an ill-formed byte: offset/line/column/literal of every token incl. INVALID, EOF and two post-EOF calls against the reference tokenizer; distinct = (lexer, token-kind/position vector) classes with at least one real token and an INVALID or skipped lexeme")
 	}
 	r.Assumption("regular definitions are read as macros; recursive regular definitions are outside the families")
 	r.Assumption("behaviour is invariant under order-preserving renaming of runes, so 2-3 letters plus UTF-8 boundary code points reach every comparison in the generator")
